@@ -5,12 +5,14 @@ V = os.path.dirname(os.path.dirname(os.path.abspath(__file__)))
 
 # id -> (engine, level category, technique, level text, level note, design ref)
 CLAIMED = {
- "C01": ("E-TAB+E-SW", "other", "match-table SPEC of operator lowering, AGREE of opcode identity / operand order across the allocated -> fuel_asm and asm-text -> virtual layers (syn), token-structure rules on the std operator impls of u8/u16/u32 (Sway tokenizer)",
-         "Decides three table-shaped clauses of code generation: every BinaryOpKind / Predicate / UnaryOpKind is lowered to the opcode the language "
+ "C01": ("E-TAB+E-SW", "other", "match-table SPEC of operator lowering, AGREE of opcode identity / operand order across the allocated -> fuel_asm and asm-text -> virtual layers (syn), token-structure rules on the std operator impls of u8/u16/u32 (Sway tokenizer), finite-domain evaluation of every constant-folding identity against the FuelVM opcode semantics and evaluator-table SPEC for the asm, IR and const_eval folding tables",
+         "Decides four table-shaped clauses of code generation: every BinaryOpKind / Predicate / UnaryOpKind is lowered to the opcode the language "
          "prescribes with operands in (dest, lhs, rhs) order; every allocated instruction is encoded as the fuel_asm op of the same name with its "
          "operands in the same order, and every asm mnemonic builds the VirtualOp of the same name; the std Add/Subtract/Multiply impls of u8/u16/u32 "
          "compute in u64, range-check against the type's maximum and revert under panic_on_overflow_enabled(), u16/u32 siblings agree, and << masks "
-         "to the width. It does not decide code generation as a whole (control flow, memory layout, calls).",
+         "to the width; every constant-folding table (asm propagation, IR combine_binary_op and identities, const_eval_intrinsic) uses the checked evaluator "
+         "of its operator, propagates its None, keeps operand order, and only rewrites by identities valid for every value of the unknown operand, reverts "
+         "included. It does not decide code generation as a whole (control flow, memory layout, calls).",
          "Trusted: syn; rules/lib/sw.py tokenizer; FuelVM opcode semantics; spec/ops_lowering.txt.",
          "DESIGN.md §3 C01"),
  "C03": ("E-TAB", "other", "syntax-tree table extraction: COVER / NOWILD / IMPLIES / SPEC rules over all InstOp and FuelVmInstruction variants",
@@ -133,7 +135,7 @@ CLAIMED = {
          "is written only by reviewed functions. The interleaving space as a whole is not explored (that is model checking).",
          "Trusted: rustc MIR of async bodies; tokio Notify / crossbeam-channel contracts; SeqCst.",
          "DESIGN.md §3 C24"),
- "C25": ("E-MIR", "other", "path-value provenance (shared lock path vs sibling) and dominance rules on file-system effects in PidFileLocking: atomic publish, guarded check-then-delete, takeover under the same advisory lock; caller rules for forc-fmt and the LSP",
+ "C25": ("E-MIR", "other", "path-value provenance (shared lock path vs sibling) and dominance rules on file-system effects in PidFileLocking: atomic publish, guarded check-then-delete, takeover with the owner check inside the same advisory lock whose guard is alive until the rename; caller rules for forc-fmt and the LSP",
          "Decides the atomicity rules whose violation loses a running process's flag under a concrete interleaving (both reproduced on the "
          "pristine tree and fixed): the lock file is never created/truncated and written in place but published by renaming a fully written sibling; "
          "a file found stale is removed only under the exclusive advisory lock after re-reading it, and lock() takes a lock over under the same advisory "
